@@ -322,7 +322,7 @@ crate::harnesses! {
     #[kani::unwind(12)]
     c10_conststatic_delta_le (thorough, "ConstCode<code_consts::DELTA>, LE stream (StaticCodeRead/StaticCodeWrite impls)", "Static* trait impls vs the code own method; symbolic value") => const_static_le::<_, {cc::DELTA}, {DELTA}, 0>;
     #[kani::unwind(12)]
-    c10_const_omega_be (quick, "ConstCode<code_consts::OMEGA>, BE stream", "write/read/len vs omega(0); symbolic value (domain of the code), offset<=8") => const_code_be::<_, {cc::OMEGA}, {OMEGA}, 0>;
+    c10_const_omega_be (thorough, "ConstCode<code_consts::OMEGA>, BE stream", "write/read/len vs omega(0); symbolic value (domain of the code), offset<=8") => const_code_be::<_, {cc::OMEGA}, {OMEGA}, 0>;
     #[kani::unwind(12)]
     c10_conststatic_omega_be (thorough, "ConstCode<code_consts::OMEGA>, BE stream (StaticCodeRead/StaticCodeWrite impls)", "Static* trait impls vs the code own method; symbolic value") => const_static_be::<_, {cc::OMEGA}, {OMEGA}, 0>;
     #[kani::unwind(12)]
@@ -362,9 +362,9 @@ crate::harnesses! {
     #[kani::unwind(12)]
     c10_conststatic_zeta2_le (thorough, "ConstCode<code_consts::ZETA2>, LE stream (StaticCodeRead/StaticCodeWrite impls)", "Static* trait impls vs the code own method; symbolic value") => const_static_le::<_, {cc::ZETA2}, {ZETA}, 2>;
     #[kani::unwind(12)]
-    c10_const_zeta3_be (quick, "ConstCode<code_consts::ZETA3>, BE stream", "write/read/len vs zeta(3); symbolic value (domain of the code), offset<=8") => const_code_be::<_, {cc::ZETA3}, {ZETA}, 3>;
+    c10_const_zeta3_be (thorough, "ConstCode<code_consts::ZETA3>, BE stream", "write/read/len vs zeta(3); symbolic value (domain of the code), offset<=8") => const_code_be::<_, {cc::ZETA3}, {ZETA}, 3>;
     #[kani::unwind(12)]
-    c10_conststatic_zeta3_be (quick, "ConstCode<code_consts::ZETA3>, BE stream (StaticCodeRead/StaticCodeWrite impls)", "Static* trait impls vs the code own method; symbolic value") => const_static_be::<_, {cc::ZETA3}, {ZETA}, 3>;
+    c10_conststatic_zeta3_be (thorough, "ConstCode<code_consts::ZETA3>, BE stream (StaticCodeRead/StaticCodeWrite impls)", "Static* trait impls vs the code own method; symbolic value") => const_static_be::<_, {cc::ZETA3}, {ZETA}, 3>;
     #[kani::unwind(12)]
     c10_const_zeta3_le (quick, "ConstCode<code_consts::ZETA3>, LE stream", "write/read/len vs zeta(3); symbolic value (domain of the code), offset<=8") => const_code_le::<_, {cc::ZETA3}, {ZETA}, 3>;
     #[kani::unwind(12)]
@@ -468,7 +468,7 @@ crate::harnesses! {
     #[kani::unwind(12)]
     c10_const_rice5_be (quick, "ConstCode<code_consts::RICE5>, BE stream", "write/read/len vs rice(5); symbolic value (domain of the code), offset<=8") => const_code_be::<_, {cc::RICE5}, {RICE}, 5>;
     #[kani::unwind(12)]
-    c10_conststatic_rice5_be (quick, "ConstCode<code_consts::RICE5>, BE stream (StaticCodeRead/StaticCodeWrite impls)", "Static* trait impls vs the code own method; symbolic value") => const_static_be::<_, {cc::RICE5}, {RICE}, 5>;
+    c10_conststatic_rice5_be (thorough, "ConstCode<code_consts::RICE5>, BE stream (StaticCodeRead/StaticCodeWrite impls)", "Static* trait impls vs the code own method; symbolic value") => const_static_be::<_, {cc::RICE5}, {RICE}, 5>;
     #[kani::unwind(12)]
     c10_const_rice5_le (thorough, "ConstCode<code_consts::RICE5>, LE stream", "write/read/len vs rice(5); symbolic value (domain of the code), offset<=8") => const_code_le::<_, {cc::RICE5}, {RICE}, 5>;
     #[kani::unwind(12)]
@@ -530,7 +530,7 @@ crate::harnesses! {
     #[kani::unwind(12)]
     c10_conststatic_pi1_le (thorough, "ConstCode<code_consts::PI1>, LE stream (StaticCodeRead/StaticCodeWrite impls)", "Static* trait impls vs the code own method; symbolic value") => const_static_le::<_, {cc::PI1}, {PI}, 1>;
     #[kani::unwind(12)]
-    c10_const_pi2_be (quick, "ConstCode<code_consts::PI2>, BE stream", "write/read/len vs pi(2); symbolic value (domain of the code), offset<=8") => const_code_be::<_, {cc::PI2}, {PI}, 2>;
+    c10_const_pi2_be (thorough, "ConstCode<code_consts::PI2>, BE stream", "write/read/len vs pi(2); symbolic value (domain of the code), offset<=8") => const_code_be::<_, {cc::PI2}, {PI}, 2>;
     #[kani::unwind(12)]
     c10_conststatic_pi2_be (thorough, "ConstCode<code_consts::PI2>, BE stream (StaticCodeRead/StaticCodeWrite impls)", "Static* trait impls vs the code own method; symbolic value") => const_static_be::<_, {cc::PI2}, {PI}, 2>;
     #[kani::unwind(12)]
@@ -602,7 +602,7 @@ crate::harnesses! {
     #[kani::unwind(12)]
     c10_conststatic_pi10_le (thorough, "ConstCode<code_consts::PI10>, LE stream (StaticCodeRead/StaticCodeWrite impls)", "Static* trait impls vs the code own method; symbolic value") => const_static_le::<_, {cc::PI10}, {PI}, 10>;
     #[kani::unwind(12)]
-    c10_const_golomb1_be (quick, "ConstCode<code_consts::GOLOMB1>, BE stream", "write/read/len vs golomb(1); symbolic value (domain of the code), offset<=8") => const_code_be::<_, {cc::GOLOMB1}, {GOLOMB}, 1>;
+    c10_const_golomb1_be (thorough, "ConstCode<code_consts::GOLOMB1>, BE stream", "write/read/len vs golomb(1); symbolic value (domain of the code), offset<=8") => const_code_be::<_, {cc::GOLOMB1}, {GOLOMB}, 1>;
     #[kani::unwind(12)]
     c10_conststatic_golomb1_be (thorough, "ConstCode<code_consts::GOLOMB1>, BE stream (StaticCodeRead/StaticCodeWrite impls)", "Static* trait impls vs the code own method; symbolic value") => const_static_be::<_, {cc::GOLOMB1}, {GOLOMB}, 1>;
     #[kani::unwind(12)]
@@ -658,7 +658,7 @@ crate::harnesses! {
     #[kani::unwind(12)]
     c10_conststatic_golomb7_le (thorough, "ConstCode<code_consts::GOLOMB7>, LE stream (StaticCodeRead/StaticCodeWrite impls)", "Static* trait impls vs the code own method; symbolic value") => const_static_le::<_, {cc::GOLOMB7}, {GOLOMB}, 7>;
     #[kani::unwind(12)]
-    c10_const_golomb8_be (quick, "ConstCode<code_consts::GOLOMB8>, BE stream", "write/read/len vs golomb(8); symbolic value (domain of the code), offset<=8") => const_code_be::<_, {cc::GOLOMB8}, {GOLOMB}, 8>;
+    c10_const_golomb8_be (thorough, "ConstCode<code_consts::GOLOMB8>, BE stream", "write/read/len vs golomb(8); symbolic value (domain of the code), offset<=8") => const_code_be::<_, {cc::GOLOMB8}, {GOLOMB}, 8>;
     #[kani::unwind(12)]
     c10_conststatic_golomb8_be (thorough, "ConstCode<code_consts::GOLOMB8>, BE stream (StaticCodeRead/StaticCodeWrite impls)", "Static* trait impls vs the code own method; symbolic value") => const_static_be::<_, {cc::GOLOMB8}, {GOLOMB}, 8>;
     #[kani::unwind(12)]
@@ -788,7 +788,7 @@ crate::harnesses! {
     #[kani::unwind(12)]
     c10_codes_delta0_be (quick, "Codes::Delta param 0, BE stream", "Codes::write/read/len vs the code own method; symbolic value") => codes_be::<_, {DELTA}, 0>;
     #[kani::unwind(12)]
-    c10_codesstatic_delta0_be (quick, "Codes::Delta param 0, BE stream (StaticCodeRead/StaticCodeWrite impls)", "Static* trait impls vs the code own method; symbolic value") => codes_static_be::<_, {DELTA}, 0>;
+    c10_codesstatic_delta0_be (thorough, "Codes::Delta param 0, BE stream (StaticCodeRead/StaticCodeWrite impls)", "Static* trait impls vs the code own method; symbolic value") => codes_static_be::<_, {DELTA}, 0>;
     #[kani::unwind(12)]
     c10_codes_delta0_le (thorough, "Codes::Delta param 0, LE stream", "Codes::write/read/len vs the code own method; symbolic value") => codes_le::<_, {DELTA}, 0>;
     #[kani::unwind(12)]
@@ -834,7 +834,7 @@ crate::harnesses! {
     #[kani::unwind(12)]
     c10_codesstatic_zeta2_le (thorough, "Codes::Zeta param 2, LE stream (StaticCodeRead/StaticCodeWrite impls)", "Static* trait impls vs the code own method; symbolic value") => codes_static_le::<_, {ZETA}, 2>;
     #[kani::unwind(12)]
-    c10_codes_zeta3_be (quick, "Codes::Zeta param 3, BE stream", "Codes::write/read/len vs the code own method; symbolic value") => codes_be::<_, {ZETA}, 3>;
+    c10_codes_zeta3_be (thorough, "Codes::Zeta param 3, BE stream", "Codes::write/read/len vs the code own method; symbolic value") => codes_be::<_, {ZETA}, 3>;
     #[kani::unwind(12)]
     c10_codesstatic_zeta3_be (thorough, "Codes::Zeta param 3, BE stream (StaticCodeRead/StaticCodeWrite impls)", "Static* trait impls vs the code own method; symbolic value") => codes_static_be::<_, {ZETA}, 3>;
     #[kani::unwind(12)]
@@ -908,7 +908,7 @@ crate::harnesses! {
     #[kani::unwind(12)]
     c10_codes_pi0_be (quick, "Codes::Pi param 0, BE stream", "Codes::write/read/len vs the code own method; symbolic value") => codes_be::<_, {PI}, 0>;
     #[kani::unwind(12)]
-    c10_codesstatic_pi0_be (quick, "Codes::Pi param 0, BE stream (StaticCodeRead/StaticCodeWrite impls)", "Static* trait impls vs the code own method; symbolic value") => codes_static_be::<_, {PI}, 0>;
+    c10_codesstatic_pi0_be (thorough, "Codes::Pi param 0, BE stream (StaticCodeRead/StaticCodeWrite impls)", "Static* trait impls vs the code own method; symbolic value") => codes_static_be::<_, {PI}, 0>;
     #[kani::unwind(12)]
     c10_codes_pi0_le (thorough, "Codes::Pi param 0, LE stream", "Codes::write/read/len vs the code own method; symbolic value") => codes_le::<_, {PI}, 0>;
     #[kani::unwind(12)]
@@ -1010,7 +1010,7 @@ crate::harnesses! {
     #[kani::unwind(12)]
     c10_codesstatic_golomb1_le (thorough, "Codes::Golomb param 1, LE stream (StaticCodeRead/StaticCodeWrite impls)", "Static* trait impls vs the code own method; symbolic value") => codes_static_le::<_, {GOLOMB}, 1>;
     #[kani::unwind(12)]
-    c10_codes_golomb2_be (quick, "Codes::Golomb param 2, BE stream", "Codes::write/read/len vs the code own method; symbolic value") => codes_be::<_, {GOLOMB}, 2>;
+    c10_codes_golomb2_be (thorough, "Codes::Golomb param 2, BE stream", "Codes::write/read/len vs the code own method; symbolic value") => codes_be::<_, {GOLOMB}, 2>;
     #[kani::unwind(12)]
     c10_codesstatic_golomb2_be (thorough, "Codes::Golomb param 2, BE stream (StaticCodeRead/StaticCodeWrite impls)", "Static* trait impls vs the code own method; symbolic value") => codes_static_be::<_, {GOLOMB}, 2>;
     #[kani::unwind(12)]
@@ -1092,7 +1092,7 @@ crate::harnesses! {
     #[kani::unwind(12)]
     c10_codes_exp_golomb0_be (quick, "Codes::ExpGolomb param 0, BE stream", "Codes::write/read/len vs the code own method; symbolic value") => codes_be::<_, {EXP_GOLOMB}, 0>;
     #[kani::unwind(12)]
-    c10_codesstatic_exp_golomb0_be (quick, "Codes::ExpGolomb param 0, BE stream (StaticCodeRead/StaticCodeWrite impls)", "Static* trait impls vs the code own method; symbolic value") => codes_static_be::<_, {EXP_GOLOMB}, 0>;
+    c10_codesstatic_exp_golomb0_be (thorough, "Codes::ExpGolomb param 0, BE stream (StaticCodeRead/StaticCodeWrite impls)", "Static* trait impls vs the code own method; symbolic value") => codes_static_be::<_, {EXP_GOLOMB}, 0>;
     #[kani::unwind(12)]
     c10_codes_exp_golomb0_le (thorough, "Codes::ExpGolomb param 0, LE stream", "Codes::write/read/len vs the code own method; symbolic value") => codes_le::<_, {EXP_GOLOMB}, 0>;
     #[kani::unwind(12)]
@@ -1186,7 +1186,7 @@ crate::harnesses! {
     #[kani::unwind(12)]
     c10_codesstatic_exp_golomb11_le (thorough, "Codes::ExpGolomb param 11, LE stream (StaticCodeRead/StaticCodeWrite impls)", "Static* trait impls vs the code own method; symbolic value") => codes_static_le::<_, {EXP_GOLOMB}, 11>;
     #[kani::unwind(12)]
-    c10_codes_rice0_be (quick, "Codes::Rice param 0, BE stream", "Codes::write/read/len vs the code own method; symbolic value") => codes_be::<_, {RICE}, 0>;
+    c10_codes_rice0_be (thorough, "Codes::Rice param 0, BE stream", "Codes::write/read/len vs the code own method; symbolic value") => codes_be::<_, {RICE}, 0>;
     #[kani::unwind(12)]
     c10_codesstatic_rice0_be (thorough, "Codes::Rice param 0, BE stream (StaticCodeRead/StaticCodeWrite impls)", "Static* trait impls vs the code own method; symbolic value") => codes_static_be::<_, {RICE}, 0>;
     #[kani::unwind(12)]
@@ -1282,7 +1282,7 @@ crate::harnesses! {
     #[kani::unwind(12)]
     c10_codesstatic_rice11_le (thorough, "Codes::Rice param 11, LE stream (StaticCodeRead/StaticCodeWrite impls)", "Static* trait impls vs the code own method; symbolic value") => codes_static_le::<_, {RICE}, 11>;
     #[kani::unwind(12)]
-    c10_codes_sym_zeta_be (quick, "Codes::Zeta symbolic param 11..=63, BE stream", "catch-all arms; symbolic value") => codes_sym_be::<_, {ZETA}>;
+    c10_codes_sym_zeta_be (thorough, "Codes::Zeta symbolic param 11..=63, BE stream", "catch-all arms; symbolic value") => codes_sym_be::<_, {ZETA}>;
     #[kani::unwind(12)]
     c10_codes_sym_zeta_le (thorough, "Codes::Zeta symbolic param 11..=63, LE stream", "catch-all arms; symbolic value") => codes_sym_le::<_, {ZETA}>;
     #[kani::unwind(12)]
@@ -1334,7 +1334,7 @@ crate::harnesses! {
     #[kani::unwind(12)]
     c10_func_zeta2_le (thorough, "FuncCodeWriter/Reader/Len::new(Codes::Zeta param 2), LE stream", "function-pointer dispatch vs the code own method; symbolic value") => func_le::<_, {ZETA}, 2>;
     #[kani::unwind(12)]
-    c10_func_zeta3_be (quick, "FuncCodeWriter/Reader/Len::new(Codes::Zeta param 3), BE stream", "function-pointer dispatch vs the code own method; symbolic value") => func_be::<_, {ZETA}, 3>;
+    c10_func_zeta3_be (thorough, "FuncCodeWriter/Reader/Len::new(Codes::Zeta param 3), BE stream", "function-pointer dispatch vs the code own method; symbolic value") => func_be::<_, {ZETA}, 3>;
     #[kani::unwind(12)]
     c10_func_zeta3_le (thorough, "FuncCodeWriter/Reader/Len::new(Codes::Zeta param 3), LE stream", "function-pointer dispatch vs the code own method; symbolic value") => func_le::<_, {ZETA}, 3>;
     #[kani::unwind(12)]
@@ -1581,7 +1581,7 @@ crate::harnesses! {
     #[kani::stub(std::string::ToString::to_string, stub_to_string)]
     #[kani::stub(std::backtrace::Backtrace::capture, stub_backtrace_capture)]
     #[kani::unwind(12)]
-    c10_factory_delta0_be (quick, "FactoryFuncCodeReader::new(Codes::Delta param 0) over a reader factory, BE stream", "get() and inner() vs the code own method; symbolic value") => factory_be::<_, {DELTA}, 0>;
+    c10_factory_delta0_be (thorough, "FactoryFuncCodeReader::new(Codes::Delta param 0) over a reader factory, BE stream", "get() and inner() vs the code own method; symbolic value") => factory_be::<_, {DELTA}, 0>;
     #[kani::stub(alloc::fmt::format, stub_format)]
     #[kani::stub(std::string::ToString::to_string, stub_to_string)]
     #[kani::stub(std::backtrace::Backtrace::capture, stub_backtrace_capture)]
